@@ -9,6 +9,7 @@ Driver entry for C04. Tab-separated fields; strings escaped as \\ \t \n \r.
 mode `judge` (stateful, one answer per line):
   F <id> <content>                     register a file content                       -> `f`
   B <label> <n> (<path> <id>)*         baseline = files generated for a benign value -> `base <ntokens>` | `basefail …`
+  Q <case> <n> (<path> <id>)*          files generated for the empty string in a *string field -> `ok empty-same` | `fail empty-argument …`
   P <case> <n> (<path> <id>)*          files generated for the hostile value          -> `ok absent` | `ok inside <k>` |
                                                                                         `fail <clause> <path> <pos> <detail>`
 mode `regex`:   <validator> <string>   -> `1` | `0` | `bad-op`   (Lean validator models over the generated regexes)
@@ -97,11 +98,11 @@ def errStr : LexErr → String
 def oneLine (s : String) : String :=
   String.ofList (s.toList.map (fun c => if c == '\n' || c == '\t' || c == '\r' then ' ' else c))
 
-def judgeCase (ref : IO.Ref St) (files : List (String × Nat)) : IO String := do
+def judgeCase (ref : IO.Ref St) (relaxed : Bool) (files : List (String × Nat)) : IO String := do
   let st ← ref.get
   -- the value does not appear at all (rejected or unused): nothing of it can have been injected
   let present := files.any (fun (p, id) => hasMarker p.toList || ((getText st id).map (·.2) |>.getD false))
-  if !present then return "ok absent"
+  if !present && !relaxed then return "ok absent"
   -- the set of files must be the same up to marker-bearing paths
   let keyed := fun (fs : List (String × Nat)) =>
     (fs.map (fun f => ((if hasMarker f.1.toList then "<marked>" else f.1), f))).mergeSort (fun a b => a.1 ≤ b.1)
@@ -133,7 +134,7 @@ def judgeCase (ref : IO.Ref St) (files : List (String × Nat)) : IO String := do
         | none, _ => return s!"fail baseline-lex-error {bpath} 0 blocks do not nest"
         | some _, none => return s!"fail nesting {ppath} 0 blocks do not nest"
         | some b, some p =>
-        match judgeToks b p with
+        match (if relaxed then judgeEmpty b p else judgeToks b p) with
         | .ok k => inside := inside + k
         | .fail clause pos detail => return s!"fail {clause} {ppath} {pos} {oneLine detail}"
     else if ppath.endsWith ".json" then
@@ -141,7 +142,7 @@ def judgeCase (ref : IO.Ref St) (files : List (String × Nat)) : IO String := do
       let tp := (getText st pid).map (·.1) |>.getD ""
       match Lean.Json.parse tb, Lean.Json.parse tp with
       | .ok b, .ok p =>
-        if jsonSame b p then
+        if jsonSame b p || (relaxed && jsonSame p b) then
           if pmarked then inside := inside + 1
         else
           return s!"fail json {ppath} 0 structure differs"
@@ -149,6 +150,7 @@ def judgeCase (ref : IO.Ref St) (files : List (String × Nat)) : IO String := do
     else
       -- certificate bundles, secrets: content is the value's own file
       if pmarked then inside := inside + 1
+  if relaxed then return "ok empty-same"
   if anyMarker then return s!"ok inside {inside}" else return "ok absent"
 
 def judgeLine (ref : IO.Ref St) (line : String) : IO String := do
@@ -179,7 +181,11 @@ def judgeLine (ref : IO.Ref St) (line : String) : IO String := do
   | "P" :: _case :: _n :: rest =>
     match parseFiles rest with
     | none => return "bad-op"
-    | some files => judgeCase ref files
+    | some files => judgeCase ref false files
+  | "Q" :: _case :: _n :: rest =>
+    match parseFiles rest with
+    | none => return "bad-op"
+    | some files => judgeCase ref true files
   | _ => return "bad-op"
 
 def regexLine (line : String) : String :=
